@@ -83,6 +83,7 @@ func isQuery(info *types.Info, c *ast.CallExpr, fn *types.Func) bool {
 func Run(cfg core.Config, scope core.Scope) *core.Result {
 	res := core.NewResult("OKFLOW")
 	res.Rules = append(res.Rules,
+		"OKFLOW.condpath: in Solve*/Inverse* methods of types with a cond field every `return nil` is preceded on all paths by a test of the receiver's cond against ConditionTolerance",
 		"OKFLOW.loopstatus: a status assigned inside a loop is read before the same assignment overwrites it in the next iteration",
 		"OKFLOW.use: the ok/error/unconverged result of every non-query call to a LAPACK routine or mat factorization/solver reaches a branch, a field, a return or another call",
 		"OKFLOW.discard: no value-returning LAPACK routine is called as a bare statement with all results discarded",
@@ -109,6 +110,7 @@ func Run(cfg core.Config, scope core.Scope) *core.Result {
 		}
 		if strings.HasSuffix(pkg.PkgPath, "gonum/mat") {
 			checkCond(res, pkg)
+			checkCondPath(res, pkg)
 		}
 	}
 	if scope.Files == nil {
